@@ -2,6 +2,7 @@
 import random, os
 import engine as E
 from props import updgen as U
+from props import zckdlgen as ZG
 
 PROP = 'C04'
 MODULES = ['ZckModel.Props.C04', 'ZckModel.Props.C04Sound', 'ZckModel.Props.C04Req']
@@ -9,8 +10,9 @@ ASSUMPTIONS = [
     "the server holds a valid file B and answers every range request honestly (RFC 7233: one range -> plain body, several -> "
     "multipart/byteranges in request order); the old file A, when given, is a valid zchunk file",
     "the procedure is zckdl's (dl_header, zck_find_valid_chunks, zck_copy_chunks, zck_reset_failed_chunks, the missing-range loop, "
-    "ftruncate, zck_validate_data_checksum) performed in-process with the real library calls; libcurl is replaced by the harness's "
-    "feeder (quick) and exercised for real against a loopback HTTP server in the thorough tier",
+    "ftruncate, zck_validate_data_checksum) performed in-process with the real library calls with libcurl replaced by the harness's "
+    "feeder, AND by the real zckdl binary (src/zck_dl.c + libcurl) against a loopback HTTP range server that answers more than a "
+    "configured number of ranges with 200 (range back-off)",
     "hash collisions are not assumed away in the theorems (conclusions are 'equal or an explicit collision')",
 ]
 LIMITS = [1, 2, 3, 7, 127, 255, -1]
@@ -34,6 +36,8 @@ def gen_cases(tier, seed, ctx):
                     cases.append(E.Case('u%d' % len(cases), W.op(A, Bb, tb, lim, fr), dict(kind='%s/%s' % (tag.split('/')[0], tname))))
     for op, kind in U.drop_cases(rnd, W, tier, 150 if tier == 'quick' else 1500):
         cases.append(E.Case('u%d' % len(cases), op, dict(kind=kind)))
+    # the real zckdl binary of the working tree (src/zck_dl.c + libcurl) against a loopback range server
+    cases += ZG.cases(ctx, tier, seed, kill=False, n=30 if tier == 'quick' else 400)
     return cases
 
 def nontrivial(r):
